@@ -30,6 +30,17 @@ type CaseB struct {
 	N       []uint32 `json:"n,omitempty"`
 	Q       []uint64 `json:"q,omitempty"`
 	Rows    int      `json:"rows,omitempty"`
+	IVEdge  int      `json:"iv_edge,omitempty"` // class of demonref.IVEdgeNames: the session's counter block is about to carry
+	Big     int      `json:"big,omitempty"`     // > 0: an output callback of this many bytes precedes the callback in the same batch
+}
+
+// bigOutput is the text of the large output callback: position dependent, printable.
+func bigOutput(n int) string {
+	b := make([]byte, n)
+	for i := range b {
+		b[i] = byte('a' + (i+i>>7+i>>15)%26)
+	}
+	return string(b)
 }
 
 var kindsB = []string{
@@ -78,6 +89,14 @@ func genB(t *rapid.T) CaseB {
 		c.Q = append(c.Q, rapid.Uint64Range(1, 0x7fffffffffffffff).Draw(t, fmt.Sprintf("q%d", i)))
 	}
 	c.Rows = rapid.IntRange(1, 3).Draw(t, "rows")
+	// one session in four has an IV whose counter block is about to carry; one batch in twenty-five
+	// carries more than a MiB before the callback (block-wise or segmented decryption shows only there)
+	if rapid.IntRange(0, 3).Draw(t, "ivedge?") == 0 {
+		c.IVEdge = rapid.IntRange(1, len(demonref.IVEdgeNames)-1).Draw(t, "ivedge")
+	}
+	if rapid.IntRange(0, 24).Draw(t, "big?") == 0 {
+		c.Big = rapid.SampledFrom([]int{1<<20 - 40, 1 << 20, 1<<20 + 33, 2<<20 + 77, 3<<20 + 5}).Draw(t, "big")
+	}
 	return c
 }
 
@@ -282,6 +301,7 @@ func checkB(c CaseB) *core.Violation {
 	}
 	defer w.Close()
 	key, iv := keyFrom(byte(c.AgentID), false)
+	iv = demonref.ApplyIVEdge(iv, c.IVEdge, byte(c.AgentID))
 	s := agx.Sess{ID: c.AgentID, Key: key, IV: iv, Meta: agx.DefaultMeta(c.AgentID)}
 	if code, _ := w.Register(s); code != 200 {
 		return core.V("setup|register-refused", "registration refused: %d", code)
@@ -292,7 +312,15 @@ func checkB(c CaseB) *core.Violation {
 	a.AddJobToQueue(agent.Job{Command: cmd, RequestID: req, Data: []interface{}{}})
 	w.Checkin(s, nil) // hand the task out
 	from := len(w.TS.EventsList)
-	code, _, _, _ := w.Checkin(s, []demonref.Sub{{Cmd: cmd, ReqID: req, Body: body}})
+	subs := []demonref.Sub{{Cmd: cmd, ReqID: req, Body: body}}
+	if c.Big > 0 {
+		const breq = 0x00b16b16
+		a.AddRequest(agent.Job{RequestID: breq, Command: agent.COMMAND_OUTPUT})
+		big := bigOutput(c.Big)
+		subs = append([]demonref.Sub{{Cmd: agent.COMMAND_OUTPUT, ReqID: breq, Body: (&demonref.Enc{}).String(big).B}}, subs...)
+		wants = append(wants, "\x01OUTPUT="+big)
+	}
+	code, _, _, _ := w.Checkin(s, subs)
 	if code != 200 {
 		return core.V("callback|status|"+c.Kind, "batch with a %s callback answered %d", c.Kind, code)
 	}
@@ -379,13 +407,23 @@ func classifyB(c CaseB) core.Class {
 			astral = true
 		}
 	}
-	return core.Class{NonTrivial: true, Fingerprint: fmt.Sprintf("%s|rows=%d|astral=%v", c.Kind, c.Rows, astral), Labels: []string{"kind:" + c.Kind}}
+	cl := core.Class{NonTrivial: true, Fingerprint: fmt.Sprintf("%s|rows=%d|astral=%v", c.Kind, c.Rows, astral), Labels: []string{"kind:" + c.Kind}}
+	if c.IVEdge > 0 && c.IVEdge < len(demonref.IVEdgeNames) {
+		cl.Labels = append(cl.Labels, "iv:"+demonref.IVEdgeNames[c.IVEdge])
+	}
+	if c.Big > 0 {
+		cl.Labels = append(cl.Labels, "batch-larger-than-1MiB")
+		if c.IVEdge > 0 {
+			cl.Labels = append(cl.Labels, "batch-larger-than-1MiB+iv-about-to-carry")
+		}
+	}
+	return cl
 }
 
 func TestC03b(t *testing.T) {
 	core.Run(t, core.Spec[CaseB]{
 		Property: "C03", Sub: "b",
-		Rule: "one of 41 callback kinds with labelled console output; field values are generated markers (ascii / BMP / astral / spaces / backslashes) and integers; the callback is encoded as the Demon encodes it (big-endian, UTF-16LE) and sent through the real listener engine for an outstanding request id; oracle: the Session/Output event operators receive is attributed to the sending session and contains every value next to its label; if a line is merely reworded, every reported value (strings verbatim, integers >= 100000, 64-bit values) must still appear unaltered (raw output kinds: exactly equal). Every case is non-trivial; distinct = (kind, row count, astral)",
+		Rule: "one of 41 callback kinds with labelled console output; field values are generated markers (ascii / BMP / astral / spaces / backslashes) and integers; the callback is encoded as the Demon encodes it (big-endian, UTF-16LE) and sent through the real listener engine for an outstanding request id; one session in four has an IV whose counter block is about to carry, and one batch in twenty-five carries an output callback of 1-3 MiB (position-dependent text, must be shown exactly) before the callback; oracle: the Session/Output event operators receive is attributed to the sending session and contains every value next to its label; if a line is merely reworded, every reported value (strings verbatim, integers >= 100000, 64-bit values) must still appear unaltered (raw output kinds: exactly equal). Every case is non-trivial; distinct = (kind, row count, astral)",
 		Gen:   genB, Check: checkB, Classify: classifyB,
 		Assumptions: []string{"containment next to a label is weaker than a second formatter: it catches truncation, re-encoding and swaps of differently labelled fields"},
 	})
